@@ -51,6 +51,9 @@ Cases ==
   \cup { [op |-> "wit", counts |-> cs, expect |-> GuardWit(cs)] : cs \in UNION { [1..k -> 0..8] : k \in 0..(IF Quick THEN 3 ELSE 4) } }
   \cup { [op |-> "mask", t |-> t, len |-> len, expect |-> GuardMask(t, len)] : t \in 1..6, len \in 0..8 }
   \cup { [op |-> "commit", t |-> t, b |-> b, expect |-> GuardCommit(t, b)] : t \in 1..6, b \in 0..8 }
+  \* the VALUES of the factors do not matter: `zt` trailing factors are zero, `hv`: every factor is one of the largest scalars (l - 1 - i)
+  \cup { [op |-> "commit_values", t |-> t, b |-> b, zt |-> zt, hv |-> hv, expect |-> GuardCommit(t, b)] : t \in 1..6, b \in 1..8, zt \in 0..3, hv \in BOOLEAN }
+  \cup { [op |-> "mask_values", t |-> t, len |-> len, zt |-> zt, hv |-> hv, expect |-> GuardMask(t, len)] : t \in 1..6, len \in 1..8, zt \in 0..2, hv \in BOOLEAN }
   \* a generator record edited after construction so that it holds more blinding bases than its declared degree: the bound stays the degree
   \cup { [op |-> "commit_edited", t |-> t, extra |-> x, b |-> b, expect |-> GuardCommit(t, b)] : t \in 1..5, x \in 1..2, b \in 0..8 }
   \cup { [op |-> "deg_u8", v |-> v, expect |-> GuardDeg(v)] : v \in 0..255 }
@@ -60,7 +63,7 @@ Cases ==
 
 VARIABLES c, pc
 Init == pc = "pick" /\ c = [op |-> "none"]
-Next == \/ pc = "pick" /\ pc' = "done" /\ c' \in {x \in Cases : x.op = "stmt" => (x.seed \/ x.sval = 0)}
+Next == \/ pc = "pick" /\ pc' = "done" /\ c' \in {x \in Cases : (x.op = "stmt" => (x.seed \/ x.sval = 0)) /\ (x.op = "commit_values" => x.zt <= x.b) /\ (x.op = "mask_values" => x.zt <= x.len)}
         \/ pc = "done" /\ UNCHANGED <<c, pc>>
 Spec == Init /\ [][Next]_<<c, pc>>
 
